@@ -143,6 +143,27 @@ def run(res, tier, seed):
         # shape rule (checked directly as well as through the Forall2 theorems + correspondence)
         exp = expected(M, pts, rank)
         oracle_case(res, M, bnds, pts, rank, obs)
+        if M and len(cases) % 5 == 0:
+            # the polyhedron is an array: a right-hand side or a coefficient is written in place after the first
+            # classification, and the same object is asked again - the answers are those of the polyhedron as it is then
+            i, j = rng.randrange(len(M)), rng.choice([0, 0, rng.randrange(len(M[0]))])
+            v = int(M[i][j]) + rng.choice([1, -1, 2, -3])
+            if -100 <= v <= 100:
+                try:
+                    P, arr = poly_and_points(M, bnds, pts, rank)
+                    observe(P, arr)
+                    P[i, j] = v
+                    M2 = [list(r) for r in M]; M2[i][j] = v
+                    obs2 = observe(P, arr)
+                    res.count("classification_after_in_place_write")
+                    exp2 = expected(M2, pts, rank)
+                    for name, o, e in zip(METHODS, obs2, exp2):
+                        if o != e and not (np.asarray(o, dtype=object).size == 0 and np.asarray(e, dtype=object).size == 0 and len(o) == len(e)):
+                            res.violation("oracle", f"{name} after an in-place write P[{i},{j}] = {v} (and one earlier classification on the same object) disagrees with A x >= b: matrix {M2} points {pts}: implementation {o}, required {e}",
+                                          {"op": "points-after-write", "M": M, "bnds": bnds, "pts": pts, "rank": rank, "write": [i, j, v], "method": name})
+                            break
+                except Exception as e:
+                    res.count("after_write_error:" + type(e).__name__)
         try:
             term = case_term(M, bnds, pts, rank, obs)
         except Exception as e:
@@ -192,6 +213,14 @@ def run(res, tier, seed):
 def replay(payload):
     r = payload.get("replay", payload)
     M, bnds, pts, rank = r["M"], [tuple(x) for x in r["bnds"]], r["pts"], r["rank"]
+    if r.get("op") == "points-after-write":
+        i, j, v = r["write"]
+        P, arr = poly_and_points(M, bnds, pts, rank)
+        observe(P, arr); P[i, j] = v
+        M2 = [list(x) for x in M]; M2[i][j] = v
+        obs2, exp2 = observe(P, arr), expected(M2, pts, rank)
+        print("matrix after the write", M2, "points", pts, "implementation", obs2, "required", exp2)
+        return 0 if obs2 == exp2 else 1
     try:
         obs = observe(*poly_and_points(M, bnds, pts, rank))
     except Exception as e:
